@@ -4,6 +4,8 @@ import (
 	"bufio"
 	"bytes"
 	"context"
+	"crypto/ed25519"
+	"crypto/sha256"
 	"encoding/base64"
 	"encoding/json"
 	"errors"
@@ -68,7 +70,12 @@ func configChild(args []string) error {
 	}
 	ctx, cancel := context.WithTimeout(context.Background(), 600*time.Millisecond)
 	defer cancel()
-	merr := omniwitness.Main(ctx, omniwitness.OperatorConfig{WitnessKeys: signers, WitnessVerifier: witV, FeedInterval: 100 * time.Millisecond},
+	// every optional component is switched on (the REST distributor and the bastion connection, both pointed at an address nobody listens on):
+	// the configuration has to be usable by all of them
+	bseed := sha256.Sum256([]byte("verif config child bastion key"))
+	merr := omniwitness.Main(ctx, omniwitness.OperatorConfig{WitnessKeys: signers, WitnessVerifier: witV, FeedInterval: 100 * time.Millisecond,
+		RestDistributorBaseURL: "http://127.0.0.1:1", DistributeInterval: 100 * time.Millisecond,
+		BastionAddr: "127.0.0.1:1", BastionKey: ed25519.NewKeyFromSeed(bseed[:]), BastionRateLimit: 10},
 		inmemory.NewPersistence(), ln, &http.Client{Transport: refusingTransport{}, Timeout: time.Second})
 	if merr == nil || errors.Is(merr, context.DeadlineExceeded) || errors.Is(merr, context.Canceled) || errors.Is(merr, http.ErrServerClosed) {
 		say("RESULT serving")
@@ -324,10 +331,10 @@ func identityEvents(w *world.World, run string, origins []string) ([]any, error)
 	}))
 	defer srv.Close()
 	d, err := rest.NewDistributor(srv.URL, srv.Client(), logs, witV, adapter)
-	if err != nil {
-		return nil, err
+	if err == nil {
+		_ = d.DistributeOnce(context.Background())
 	}
-	_ = d.DistributeOnce(context.Background())
+	// (a distributor that cannot be built for a coherent set of logs pushes nothing: every origin is then reported with an empty id)
 	for _, o := range origins {
 		mu.Lock()
 		id := puts[o]
@@ -434,7 +441,9 @@ func configMain(args []string) error {
 	// (3) identity: one id per origin on every interface
 	sets := [][]string{{"verif.example/a"}, {"verif.example/a", "verif.example/b", "verif.example/a/b"}, {"go.sum database tree", "rekor.sigstore.dev - 1193050959916656506", "rekor.sigstore.dev - 2605736670972794746"},
 		{"with space", "with/slash", "ünïcode", "UPPER", "upper"},
-		{" leading blank", "trailing blank ", "trailing/slash/", "trailing/slash", "Mixed.Case/Origin", "mixed.case/origin", "a//b", "a/./b", "100%/percent"}}
+		{" leading blank", "trailing blank ", "trailing/slash/", "trailing/slash", "Mixed.Case/Origin", "mixed.case/origin", "a//b", "a/./b", "100%/percent"},
+		// very long origins (nothing bounds their length; the endpoint takes bodies of 16 KiB), one a prefix of the other at a buffer-sized boundary
+		{strings.Repeat("o", 4095), strings.Repeat("o", 4096), strings.Repeat("o", 4096) + "/shard-b", strings.Repeat("verif.example/long/", 330), strings.Repeat("p", 1023), strings.Repeat("p", 1024) + "x"}}
 	shipped := omniwitness.LogConfig{}
 	if yaml.Unmarshal(omniwitness.ConfigLogs, &shipped) == nil {
 		var os_ []string
